@@ -130,13 +130,18 @@ def run_measures(st, cfg):
 
 
 # ---------------------------------------------------------------------- minimisation
-def ddmin(items, test, max_tests=400):
+def ddmin(items, test, max_tests=400, max_seconds=90):
     """classic delta debugging: smallest sublist (order kept) for which test(sublist) is True"""
+    import time as _time
     n = 2
     tests = [0]
+    t_end = _time.time() + max_seconds
 
     def t(x):
         tests[0] += 1
+        if _time.time() > t_end:
+            tests[0] = max_tests  # stop refining, keep what we have
+            return False
         return test(x)
 
     items = list(items)
